@@ -5,6 +5,7 @@ import (
 	"fmt"
 	"math"
 	"math/big"
+	"runtime/debug"
 	"sort"
 	"strings"
 	"sync"
@@ -387,6 +388,36 @@ var c20pool = []c20val{
 	}, "{int32:float}"},
 }
 
+var (
+	c20goodOnce sync.Once
+	c20good     map[string][]int
+)
+
+// c20goodFor lists the pool entries a field of the given scalar/enum/message
+// kind must store (expectScalar == "store"): element, key and value choices are
+// drawn from them most of the time, so that accepted stores — and not only
+// rejections — are exercised in every position.
+func c20goodFor(kind string) []int {
+	c20goodOnce.Do(func() {
+		c20descriptors()
+		c20good = map[string][]int{}
+		for _, k := range []string{"bool", "int32", "uint32", "int64", "uint64", "float", "double", "string", "bytes", "enum", "shape", "msg:Sub", "msg:Msg"} {
+			for i, pv := range c20pool {
+				v := pv.v()
+				ok := expectScalar(k, v) == "store"
+				if (k == "float" || k == "double") && !ok {
+					_, isF := v.(starlark.Float)
+					ok = isF
+				}
+				if ok {
+					c20good[k] = append(c20good[k], i)
+				}
+			}
+		}
+	})
+	return c20good[kind]
+}
+
 // c20valuesFor lists pool indexes that make sense for a field (the
 // generator draws from them most of the time so that histories build
 // non-trivial content).
@@ -564,9 +595,16 @@ func (c20) Generate(seed uint64, i int, tier string) *Scenario {
 					from = r.Intn(len(c20allFields))
 				}
 				op.Args = []int64{int64(from)}
-			case m < 90:
+			case m < 88:
 				op.Op, op.S, op.Args = "append", pickField(c20reps), nil
+				op.Obj = int(op.A)
+			case m < 91:
+				op.Op, op.S, op.Args = "setidx", pickField(c20reps), []int64{int64(r.Range(0, 1))}
+				op.Obj = int(op.A)
 			case m < 95:
+				op.Op, op.S, op.Args = "setkey", pickField(c20maps), []int64{int64(r.Intn(len(c20pool)))}
+				op.Obj = int(op.A)
+			case m < 97:
 				op.Op, op.S, op.Args = "roundtrip", "", nil
 			default:
 				op.Op, op.S, op.Args = "freeze", "", nil
@@ -589,6 +627,24 @@ func (c20) Generate(seed uint64, i int, tier string) *Scenario {
 				op.Args = []int64{int64(r.Intn(2))}
 			default:
 				op.Op, op.S, op.Args = "roundtrip", "", nil
+			}
+		}
+		switch op.Op {
+		case "append", "setidx":
+			if k, _ := fieldKind(op.S); r.Chance(2, 3) {
+				if g := c20goodFor(k); len(g) > 0 {
+					op.B = int64(g[r.Intn(len(g))])
+				}
+			}
+		case "setkey":
+			if k, _ := fieldKind(op.S); r.Chance(2, 3) {
+				kk, vk, _ := strings.Cut(k, ":")
+				if g := c20goodFor(kk); len(g) > 0 {
+					op.Args = []int64{int64(g[r.Intn(len(g))])}
+				}
+				if g := c20goodFor(vk); len(g) > 0 {
+					op.B = int64(g[r.Intn(len(g))])
+				}
 			}
 		}
 		if vs := c20valuesFor(op.S); len(vs) > 0 && (op.Op == "set" || op.Op == "setf" || op.Op == "newkw") && (r.Chance(3, 4) || theme >= 1) {
@@ -1036,14 +1092,14 @@ func (p c20) Run(sc *Scenario) *Result {
 		op.Obj = ((op.Obj % 4) + 4) % 4
 		op.A = ((op.A % 4) + 4) % 4
 		op.B = ((op.B % int64(len(c20pool))) + int64(len(c20pool))) % int64(len(c20pool))
-		x.apply(op)
+		x.guarded(func() { x.apply(op) })
 		if x.fatal() {
 			break
 		}
 		if len(x.snaps) > 0 {
 			frozenEver = true
 		}
-		x.afterOp()
+		x.guarded(x.afterOp)
 		if x.fatal() {
 			break
 		}
@@ -1059,6 +1115,24 @@ func (p c20) Run(sc *Scenario) *Result {
 	res.Count("assignments_accepted", int64(x.accepted))
 	res.Count("assignments_rejected", int64(x.rejected))
 	return res
+}
+
+// guarded runs a step of the history; a Go panic that comes out of lib/proto (or
+// protobuf underneath it) while the harness uses its public Go API — String,
+// Attr, Index, Len, Get, Iterate on messages and views — is a host panic, which
+// the property rules out. Any other panic is the harness's own and propagates.
+func (x *c20run) guarded(f func()) {
+	defer func() {
+		if r := recover(); r != nil {
+			st := string(debug.Stack())
+			if strings.Contains(st, "go.starlark.net/lib/proto.") || strings.Contains(st, "google.golang.org/protobuf/") {
+				x.fail("host-panic", "Go panic inside lib/proto reached through its Go API: %v", r)
+				return
+			}
+			panic(r)
+		}
+	}()
+	f()
 }
 
 // fatal: a violation after which the history cannot usefully continue. A
